@@ -33,11 +33,18 @@ STAGES = {
     "tcpcall": ("The check also runs the TcpCall.tla stage (explicit TLA+ spec of one whole TcpTransport call: URI, resolver, sort, eyeballs "
                 "with per-attempt connect_timeout, error mapping; model-checked, four broken variants refuted, every realizable vector run on "
                 "the real transport on loopback; TLC evaluates this property's lifted clauses on every record)."),
+    "connector": ("The check also runs the Connector.tla stage (explicit TLA+ spec of the four connector stages and the pool-less "
+                  "ConnectorService: model-checked incl. liveness, seven broken variants refuted, behaviours replayed step by step on the real "
+                  "ConnectorService / ConnectorLayer / Connector future with gated doubles, random walks; TLC evaluates this property's clauses)."),
+    "body": ("The check also runs the Body.tla stage (explicit TLA+ spec of the body variants and adapter layers against a reference "
+             "frame sequence: frames, end-of-stream, size hints, Pending, clone; eight broken variants refuted; generated op sequences on the "
+             "real types incl. hyper Incoming, and end-to-end framing through real Client <-> Server for HTTP/1.1 and HTTP/2; TLC decides)."),
     "sniffbytes": ("The check also runs the replay domain of Sniff.tla on the real auto-detecting connection and reports the falsified `bytes` "
                    "clause (what the handler reads behind the sniffer + rewind assembly is exactly what the client wrote)."),
 }
 USES = {"C07": ["tlsstream"], "C09": ["tlsstream", "duplex"], "C12": ["tlsstream"], "C20": ["tlsstream"],
-        "C18": ["sniffbytes", "duplex", "tlsstream"], "C10": ["tcpcall"], "C11": ["tcpcall"], "C17": ["tcpcall"]}
+        "C18": ["sniffbytes", "duplex", "tlsstream"], "C10": ["tcpcall"], "C11": ["tcpcall"], "C17": ["tcpcall", "body", "connector"],
+        "C01": ["body"], "C03": ["connector"], "C13": ["connector"], "C19": ["connector"]}
 for c in m['checks']:
     for st in USES.get(c['property_id'], []):
         if STAGES[st] not in c['level_claimed']['text']:
